@@ -119,8 +119,14 @@ def run(F, rep, tier):
 
     # ---- R16.2 / R16.3 on both relations
     ncalls = 0
+    def helper(callee):
+        """private helpers of FeelType the two relations delegate to (extract-function refactorings): expanded at their call sites"""
+        hh = F.hir.get(callee)
+        if hh is None or not callee.startswith(T + "::") or callee in (T + "::is_equivalent", T + "::is_conformant", T + "::coerced") or hh.get("vis") == "pub":
+            return None
+        return hh
     for nm, h in (("is_equivalent", eqv), ("is_conformant", cnf)):
-        fl = hirflow.Flow(h)
+        fl = hirflow.Flow(h, inline=helper)
         for callee, args, cond, line, node in fl.calls:
             if callee not in (T + "::is_equivalent", T + "::is_conformant") or len(args) != 2:
                 continue
@@ -162,7 +168,7 @@ def run(F, rep, tier):
                 rep.ok(r2, key, "corresponding components %s" % (cr,))
         # R16.3: returns inside loops
         ordinal = {}
-        for d, cond, line in fl.returns:
+        for d, cond, line in list(fl.returns) + [(d2, c2, l2) for d2, c2, l2, _ in fl.helper_returns]:
             idx = [i for i, c in enumerate(cond) if c[0] and c[0][0] == "loop-enter"]
             if not idx:
                 continue
